@@ -1690,7 +1690,7 @@ class UnitQuaternion(Quaternion):
             >>> print(UQ.Rx([0.3, 0.6]) / UQ.Rx([0.3, 0.6]))
 
         """
-        if isinstance(left, right.__class__):
+        if isinstance(right, UnitQuaternion):
             return UnitQuaternion(left.binop(right, lambda x, y: base.qqmul(x, base.conj(y))))
         elif base.isscalar(right):
             return Quaternion(left.binop(right, lambda x, y: x / y))
